@@ -375,6 +375,9 @@ func (e *Explorer) RunOnce(prefix []string) *Exec {
 					if choice < 0 {
 						x.Diverged = true
 						x.Obs["divergence"] = fmt.Sprintf("step %d: %q not enabled among %v", step, prefix[step], alts)
+						if os.Getenv("VERIF_DEBUG_STACKS") != "" {
+							fmt.Printf("---- goroutines of the bubble at the divergence ----\n%s\n", bubbleStacks())
+						}
 						break
 					}
 				}
